@@ -424,10 +424,8 @@ func ruleC08_5(c *Ctx) {
 	}
 	hasAppend, hasIndexed := false, false
 	instrsOf(sr, func(in ssa.Instruction) {
-		if call := callOf(in); call != nil {
-			if b, ok := call.Value.(*ssa.Builtin); ok && b.Name() == "append" {
-				hasAppend = true
-			}
+		if c.isNewRecordAppend(in) {
+			hasAppend = true
 		}
 		if s, ok := in.(*ssa.Store); ok {
 			if ia, ok := s.Addr.(*ssa.IndexAddr); ok {
@@ -466,7 +464,32 @@ func ruleC08_5(c *Ctx) {
 			if sl, isSl := a.Type().Underlying().(*types.Slice); !isSl || !isPtrToNamed(sl.Elem(), c.A.RefT) {
 				continue
 			}
-			for _, leaf := range c.An.liveLeaves(prNN, a) {
+			// the storage the written list is built on: look through re-slicing and append to the list they extend
+			var bases []ssa.Value
+			seenB := map[ssa.Value]bool{}
+			var expand func(v ssa.Value)
+			expand = func(v ssa.Value) {
+				for _, leaf := range c.An.liveLeaves(prNN, v) {
+					if seenB[leaf] {
+						continue
+					}
+					seenB[leaf] = true
+					switch x := leaf.(type) {
+					case *ssa.Slice:
+						expand(x.X)
+					case *ssa.Call:
+						if b, isB := x.Call.Value.(*ssa.Builtin); isB && b.Name() == "append" {
+							expand(x.Call.Args[0])
+							continue
+						}
+						bases = append(bases, leaf)
+					default:
+						bases = append(bases, leaf)
+					}
+				}
+			}
+			expand(a)
+			for _, leaf := range bases {
 				if !c.An.dependsOnValue(leaf, refsParam) {
 					ok = false
 				}
